@@ -304,9 +304,27 @@ def object_graph(ctx):
                   ['Consistent', 'Scans', 'BucketsSorted'], spec='OSpec', extra=['VIEW View'], workers=8)
 
 
+def object_walks(ctx):
+    """random walks of the object model far beyond the BFS bound (4 keys, up to 10 entries, depth 40 / 100; every enabled operation of every visited state is printed)"""
+    consts = {'Keys': '{<<97>>, <<98>>, <<99, 100>>, <<>>}', 'Absent': '<<122>>', 'Vals': '{0, 1, 2}',
+              'Bulk': '{<<>>, <<Entry(<<97>>, 1), Entry(<<98>>, 0), Entry(<<97>>, 0)>>}'}
+    inst = 'MCI_object_walks'
+    mod = vp.instance_module(inst, 'MC_Object', consts)
+    cfg = vp.instance_cfg(consts, {'MaxLen': 10}, ['Consistent', 'Scans', 'BucketsSorted'], spec='OSpec')
+    num, depth = (6, 40) if ctx.quick else (50, 100)
+    r = vp.tlc(f'object_walks_{ctx.tier}', mod, cfg, workers=4, simulate=f'num={num}', depth=depth, timeout=1500)
+    r['instance'] = f'object_walks_{ctx.tier} (simulation: {num} behaviours of depth {depth})'
+    r['invariants'] = ['Consistent', 'Scans', 'BucketsSorted']
+    if r['violation']:
+        raise ToolError(f'object walks violate {r["violation"]}')
+    ctx.tlc_runs.append(r)
+    return r
+
+
 def c06(ctx):
     r = object_graph(ctx)
-    ctx.replay([r['out']], ['C06.'])
+    w = object_walks(ctx)
+    ctx.replay([r['out'], w['out']], ['C06.'])
     runs = 1 if ctx.quick else 8
     n = 600 if ctx.quick else 3000
     for i in range(runs):
